@@ -610,3 +610,110 @@ impl Family for C04Handlers {
     RunOut { fingerprint: fp(&history), res: r.res, violations: v, invalid: false, reach, history }
   }
 }
+
+// ================================================================================================
+// the subscribers of the inner observables of window_with_count / group_by are subscribers too:
+// a source error reaches every inner observable that is still open, once, with the same payload
+
+pub struct C04Inner;
+
+impl Family for C04Inner {
+  fn name(&self) -> &'static str {
+    "c04-error-reaches-inner-observables"
+  }
+  fn threaded(&self) -> bool {
+    false
+  }
+  fn gen(&self, rng: &mut Rng, _tier: Tier) -> Json {
+    let n = rng.below(8) as i64;
+    Json::obj(vec![
+      ("op", Json::str(*rng.pick(&["window_with_count", "group_by"]))),
+      ("a", Json::Int(rng.range(1, 3) as i64)),
+      ("items", Json::Arr((0..n).map(|i| Json::Int(10 + i + rng.below(2) as i64 * 100)).collect())),
+      ("ending", Json::str(*rng.pick(&["error", "error", "error", "complete"]))),
+      ("err", Json::Int(rng.below(40) as i64)),
+    ])
+  }
+  fn exec(&self, w: &Json, cfg: RunCfg) -> RunOut {
+    use another_rxrust::prelude::*;
+    use std::sync::{Arc, Mutex};
+    let op = w.s("op");
+    let a = w.i("a");
+    let items: Vec<i64> = w.a("items").iter().filter_map(|x| x.as_i64()).collect();
+    let ending = w.s("ending");
+    let err = w.i("err");
+    if !["window_with_count", "group_by"].contains(&op.as_str()) || a < 1 || a > 4 || items.len() > 10 || !["error", "complete"].contains(&ending.as_str()) || err < 0 || err > 1000 {
+      return RunOut::invalid();
+    }
+    let outer = Recorder::new();
+    let inners: Arc<Mutex<Vec<Recorder>>> = Arc::new(Mutex::new(Vec::new()));
+    let (outer2, inners2, op2, items2, ending2) = (outer.clone(), inners.clone(), op.clone(), items.clone(), ending.clone());
+    let res = rxsim_rt::run(cfg, move || {
+      let sbj = subjects::Subject::<Val>::new();
+      let o: Observable<'static, Observable<'static, Val>> = if op2 == "window_with_count" { sbj.observable().window_with_count(a as usize) } else { sbj.observable().group_by(move |x: Val| x.int().rem_euclid(a)) };
+      let (l1, l2, l3) = (outer2.log.clone(), outer2.log.clone(), outer2.log.clone());
+      let inn = inners2.clone();
+      let stamp = |ev: Ev| Rec { seq_in: rxsim_rt::seq(), seq_out: rxsim_rt::seq(), task: 0, t: 0, ev };
+      let _sub = o.subscribe(
+        move |g: Observable<'static, Val>| {
+          let r = Recorder::new();
+          inn.lock().unwrap().push(r.clone());
+          let k = inn.lock().unwrap().len() as i64 - 1;
+          std::mem::forget(r.subscribe(&g));
+          l1.lock().unwrap().push(stamp(Ev::Next(Val::Int(k))));
+        },
+        move |e| l2.lock().unwrap().push(stamp(Ev::Error(err_id(&e)))),
+        move || l3.lock().unwrap().push(stamp(Ev::Complete)),
+      );
+      for i in &items2 {
+        sbj.next(Val::Int(*i));
+      }
+      if ending2 == "error" {
+        sbj.error(mk_err(err));
+      } else {
+        sbj.complete();
+      }
+    });
+    let mut v = Vec::new();
+    let mut history = vec![format!("{}({}) over items {:?}, then {}", op, a, items, ending)];
+    let want_term = if ending == "error" { Ev::Error(err_id(&mk_err(err))) } else { Ev::Complete };
+    let inners = inners.lock().unwrap().clone();
+    history.push(format!("outer: {}", outer.shown()));
+    for (k, r) in inners.iter().enumerate() {
+      history.push(format!("inner {}: {}", k, r.shown()));
+    }
+    if let Some(o) = outcome_violation(&res, &op) {
+      v.push(o);
+    } else {
+      // (which item goes to which inner observable is C02's business; judged here: every inner
+      // observable that the operator had not closed itself ends with the source's terminal - the
+      // same payload, once - and nothing follows a terminal)
+      let show = |x: &[Ev]| x.iter().map(|e| e.show()).collect::<Vec<_>>().join(" ");
+      let n_inner_items: usize = inners.iter().map(|r| r.events().iter().filter(|e| matches!(e.ev, Ev::Next(_))).count()).sum();
+      if n_inner_items != items.len() {
+        v.push(Violation::new("inner-differs", &op, format!("{}({}) over {:?}: the inner observables delivered {} items in all", op, a, items, n_inner_items)));
+      }
+      for (k, r) in inners.iter().enumerate() {
+        let got: Vec<Ev> = r.events().into_iter().map(|e| e.ev).collect();
+        let terms: Vec<&Ev> = got.iter().filter(|e| e.is_terminal()).collect();
+        if let Some(b) = contract_breach(&r.events()) {
+          v.push(Violation::new("event-after-terminal", &op, format!("inner observable {}: {}", k, b)));
+        } else if terms.is_empty() {
+          let class = if ending == "error" { "error-lost" } else { "complete-lost" };
+          v.push(Violation::new(class, &op, format!("{}({}) over {:?} ending with {}: the subscriber of inner observable {} was still open and never got that terminal: [{}]", op, a, items, want_term.show(), k, show(&got))));
+        } else if *terms[0] != want_term && *terms[0] != Ev::Complete {
+          v.push(Violation::new("error-differs", &op, format!("{}({}): inner observable {} ended with {}, the source signalled {}", op, a, k, terms[0].show(), want_term.show())));
+        }
+      }
+      let out_term: Vec<Ev> = outer.events().into_iter().map(|e| e.ev).filter(|e| e.is_terminal()).collect();
+      if out_term != vec![want_term.clone()] {
+        v.push(Violation::new("outer-terminal-differs", &op, format!("{}({}): the outer subscriber must get {} once, got [{}]", op, a, want_term.show(), show(&out_term))));
+      }
+    }
+    let mut fpv = 0u64;
+    for h in &history {
+      fpv = fpv.wrapping_mul(0x100000001B3) ^ fnv(h);
+    }
+    RunOut { res, violations: v, fingerprint: fpv, invalid: false, reach: vec![], history }
+  }
+}
